@@ -1,5 +1,6 @@
 """C01 — filters never report a false negative (writer/reader agreement, cuckoo home-bucket typestate)."""
 from ..paths import PathEnumerator
+from ..guards import fv
 from ..terms import TermBuilder, fmt, mk, const, subterms
 from ..guards import atomic_facts
 from .common import SELF, self_field, loop_exits_only_on_exhaustion
@@ -55,7 +56,16 @@ def run(ctx):
                   "insert does not set exactly the positions of iter_for(self.builder, obj) (positions: %s)" % [fmt(p[1]) for p in pi])
         okq = len(pq) == 1 and pq[0][1] == S(qry)
         probs = []
-        if okq:
+        all_form = False
+        if not pq:
+            # iterator form: iter_for(..).all(|pos| self.bs[pos])
+            from ..terms import apply_closure
+            r = TermBuilder(qry, prog).return_term()
+            if r[0] == "call" and r[1].endswith("::all") and len(r[2]) == 2 and ("elem", r[2][0]) == S(qry):
+                body = apply_closure(r[2][1], (("elem", ("dummy",)),))
+                all_form = body == ("index", ("field", selfp, "bs"), ("elem", ("dummy",)))
+            okq = all_form
+        if okq and not all_form:
             pe = PathEnumerator(qry, prog, ctx.summ)
             bit = ("index", ("field", selfp, "bs"), S(qry))
             for p in pe.paths():
@@ -95,12 +105,12 @@ def run(ctx):
             facts = {repr(c): t for c, t in pe.path_facts(p)}
             iw = [e for e in p.events if e["kind"] == "write" and self_field(e) == "i"]
             if p.ret == "Some":
-                if facts.get(repr(guard)) is not True:
+                if fv(facts, guard) is not True:
                     probs.append("an item is produced without the guard i < k")
                 if not (len(iw) == 1 and iw[0]["value"] == mk("Add", ("field", selfp, "i"), const(1))):
                     probs.append("i is not incremented exactly once per item")
             elif p.ret == "None":
-                if facts.get(repr(guard)) is not False or iw:
+                if fv(facts, guard) is not False or iw:
                     probs.append("None is returned while i < k, or i changes on exhaustion")
         ctx.check(okn and not probs, "R01-hashiter-range", nxt.key, nxt, "next(): Some(.. %% builder.m) under i < builder.k, i += 1; None otherwise",
                   "; ".join(sorted(set(probs))) or "next() returns %s" % fmt(r)[:200])
@@ -135,6 +145,11 @@ def run(ctx):
             pot = any(tr and c[0] == "op" and c[1] == "is_power_of_two" and c[2][0][:2] == ("param", 3) for c, tr in fs)
         ctx.check(okh and pot, "R01-bucket-range", hf.key, hf, "hash() is reduced modulo n_buckets and the constructor asserts n_buckets is a power of two (i ^ hash stays in range)",
                   "bucket index %s / constructor power-of-two assert = %s: a candidate bucket can fall outside the table" % (fmt(r)[:120], pot))
+    # delete removes exactly one copy (an element inserted more often than deleted is still found)
+    dele = ctx.anchor(CF + "::delete")
+    if dele is not None:
+        from .C14 import delete_rules
+        delete_rules(ctx, dele)
     # callers pass start()'s triple
     for nm in ("insert", "query"):
         f = ctx.anchor("<%s as filters::Filter[T]>::%s" % (CF, nm))
@@ -247,8 +262,8 @@ def kick_loop(ctx, ii):
             probs.append("the slot is overwritten before the victim is read (the victim is lost)")
         if a_push[1] != ("tuple", (x, victim)):
             probs.append("undo log records %s, expected (slot, victim)" % fmt(a_push[1]))
-        if not (ii.dominates(pushes[0][0], sets[0][0])):
-            probs.append("the undo-log entry is not pushed before the slot is overwritten")
+        if not (ii.dominates(pushes[0][0], sets[0][0]) or ii.dominates(sets[0][0], pushes[0][0])):
+            probs.append("the undo-log entry is not pushed on every iteration that overwrites a slot")
         if f_lv[0] == "loopvar":
             f_upd = tb.loop_update(f_lv[1], h)
             f_init = tb.loop_init(f_lv[1], h)
